@@ -514,8 +514,8 @@ func (s *state) walkFilterNode(node *parse.FilterNode) error {
 		}
 		val = CoerceString(f(s, val))
 	}
-	io.WriteString(prevBuf, val)
-	return nil
+	_, err = io.WriteString(prevBuf, val)
+	return err
 }
 
 func (s *state) walkImportNode(node *parse.ImportNode) error {
